@@ -1389,4 +1389,32 @@ example : assignTarget (#[{ vars := [("x", .num 1)] }, {}] : Array Frame) [1, 0]
     assignTarget (#[{ vars := [("x", .num 1)] }, {}] : Array Frame) [1, 0] "y" true false = some 0 := by
   decide
 
+/-! ### concrete instances (hypotheses of the growth theorems are satisfiable) -/
+
+/-- a heap where the global frame declares `$x: 1`, the function `f() { @return $x }` and the mixin
+    `m { @content }`; a caller frame 1 declares its own `$x: 2` -/
+def exHeap : Array Frame :=
+  #[{ vars := [("x", .num 1)],
+      fns := [("f", { params := ⟨[], none⟩, body := [.ret (.var "x")], env := [0] })],
+      mixins := [("m", { params := ⟨[], none⟩, body := [.content ⟨[], [], none⟩], env := [0] })] },
+    { vars := [("x", .num 2)] }]
+
+def exSt : St := { heap := exHeap, css := #[], log := #[] }
+def exCtx : Ctx := { dev := Dev.spec, env := [1, 0], semi := false, content := none, sel := ["a"], inFn := false }
+
+/-- called from a scope whose own `$x` is 2, `f()` still returns the defining scope's `$x` = 1 -/
+example : ∃ s, (run 4).expr exCtx (.call "f" [] [] none) exSt = .ok (.num 1) s := by
+  refine ⟨{ exSt with heap := exSt.heap.push {}, work := exSt.work - 1 }, ?_⟩
+  rw [C03_closure_captures_definition_scope 0 exCtx "f" "x" [0] exSt rfl (by decide) (by decide)]
+  rfl
+
+example : lookupVar exHeap [1, 0] "x" = some (.num 2) ∧ lookupVar exHeap [0] "x" = some (.num 1) := ⟨rfl, rfl⟩
+
+/-- hypotheses of `C03_content_in_caller_scope` / `C03_closure_mixin_body_in_definition_scope` -/
+example : lookupMixin exSt.heap exCtx.env "m" =
+    some { params := ⟨[], none⟩, body := [.content ⟨[], [], none⟩], env := [0] } := rfl
+
+example : findFrame exHeap [0] "y" = none ∧ findFrame exHeap [1, 0] "x" = some 1 ∧ findFrame exHeap [0] "x" = some 0 :=
+  ⟨rfl, rfl, rfl⟩
+
 end Grass.Eval
